@@ -360,3 +360,48 @@ impl Future for MaybeYield {
         }
     }
 }
+
+
+/// Drive a single future to completion on the calling thread (no task system involved).
+/// When the future is pending, the clock jumps to the next timer.
+pub fn block_on<F: Future>(fut: F) -> F::Output {
+    struct Flag(std::sync::atomic::AtomicBool);
+    impl Wake for Flag {
+        fn wake(self: Arc<Self>) {
+            self.0.store(true, std::sync::atomic::Ordering::SeqCst);
+        }
+    }
+    let flag = Arc::new(Flag(std::sync::atomic::AtomicBool::new(true)));
+    let waker = Waker::from(flag.clone());
+    let mut cx = Context::from_waker(&waker);
+    let mut fut = Box::pin(fut);
+    let mut spins = 0u64;
+    loop {
+        if flag.0.swap(false, std::sync::atomic::Ordering::SeqCst) {
+            if let Poll::Ready(v) = fut.as_mut().poll(&mut cx) {
+                return v;
+            }
+        }
+        // advance virtual time to the next timer and fire it
+        let fired = with(|e| {
+            while let Some(t) = e.timers.peek() {
+                if e.timer_wakers.contains_key(&t.seq) {
+                    e.now_ns = e.now_ns.max(t.at);
+                    fire_due_timers(e);
+                    return true;
+                } else {
+                    e.timers.pop();
+                }
+            }
+            false
+        });
+        spins += 1;
+        if !fired && !flag.0.load(std::sync::atomic::Ordering::SeqCst) {
+            if spins > 1_000_000 {
+                panic!("tokio shim: block_on future can make no progress");
+            }
+            // woken through another channel? give it one more poll
+            flag.0.store(true, std::sync::atomic::Ordering::SeqCst);
+        }
+    }
+}
